@@ -20,7 +20,7 @@
 
    Limiter tokens of the per-client limiter and the inline/replay hand-off are compared
    differentially only; see props/C05/NOTES.md. *)
-From Sdns Require Import Common.Base Common.GoList Gen.C05 C05.Model C05.Proofs C05.Proofs_libfuel C05.Ladder C05.Proofs_ladder C05.Edns C05.Proofs_edns C05.Proofs_gen3 C05.Proofs_loops.
+From Sdns Require Import Common.Base Common.GoList Gen.C05 C05.Model C05.Proofs C05.Proofs_libfuel C05.Ladder C05.Proofs_ladder C05.Edns C05.Proofs_edns C05.Proofs_gen3 C05.Proofs_loops C05.Chase C05.Proofs_chase.
 Open Scope N_scope.
 
 (* the strict admission never accepts what the library rejects, and reads the same facts *)
@@ -174,8 +174,55 @@ Print Assumptions parse_wire_name_loop_is_source.
    closing [return off == end], is Model.pw_opts: accepted with the same cookie offset/length and
    NSID/ECS/keepalive facts written to the receiver, refused (inside the loop or by the closing test)
    exactly when the model declines, out of budget exactly when the model is *)
-Theorem parse_wire_opt_walk_is_source : forall f k raw r off endo a, opt_rel r a ->
-  walk_rel raw endo (go_Request_parseWireOPT_loop1 f k r (Z.of_N off) raw (Z.of_N endo)) (pw_opts k raw off endo a).
+Theorem parse_wire_opt_walk_is_source : forall f k raw hasopt usz dob verz r off endo a us er ver fl rdl,
+  opt_rel r a -> opt_frame raw hasopt usz dob verz r ->
+  walk_rel raw endo (fun r' a' => opt_rel r' a' /\ opt_frame raw hasopt usz dob verz r')
+    (go_Request_parseWireOPT_loop1 f k r (Z.of_N off) raw us er ver fl rdl (Z.of_N endo)) (pw_opts k raw off endo a).
 Proof. exact gen_pw_opts_loop. Qed.
 Print Assumptions parse_wire_opt_walk_is_source.
+
+(* Request.parseWireOPT translated as a WHOLE (receiver-mutating method: the final receiver is the last
+   result) is Model.pw_opt: refused exactly when the model declines, never out of budget at the model's
+   fuel unless the model is, and on acceptance the receiver holds exactly the model's OPT facts
+   (hasOPT, UDP size, DO, version, cookie offset/length, NSID / ECS / keepalive) over the same bytes.
+   Request.ParseWire itself cannot be translated whole: its parameter [ednsSlot any] is refused. *)
+Theorem parse_wire_opt_is_source : forall raw r off,
+  T_Request_raw r = raw -> opt_rel r optfacts0 ->
+  match pw_opt raw off with
+  | Ok p => exists r', go_Request_parseWireOPT (opts_fuel raw) r (Z.of_N off) = Some (true, r') /\
+                       opt_rel r' (p_opts p) /\ opt_frame raw true (p_udpsize p) (p_do p) (p_version p) r'
+  | Decline => exists r', go_Request_parseWireOPT (opts_fuel raw) r (Z.of_N off) = Some (false, r')
+  | NoFuel => go_Request_parseWireOPT (opts_fuel raw) r (Z.of_N off) = None
+  end.
+Proof. exact gen_parse_wire_opt. Qed.
+Print Assumptions parse_wire_opt_is_source.
+
+(* ---- alias composition (the part ladder_refines_partial treats as a decline) ----
+   Chase.v models Cache.collectWireChase / composeWireChase (hop walk over the abstract store: body for
+   the client's DO class, expiry, NOERROR with empty authority/additional, recomposable records,
+   terminal record, last alias, question-name and visited-key loop checks, full-preimage match,
+   refresh-due decline of cad4531, at most 10 segments) and the decoded path's nested chase
+   (handleCacheHit -> ToMsg -> additionalAnswer's scan and lookup loop -> sub-query -> handleCacheHit one
+   level deeper, depth < 10) over the SAME store.  Whenever the byte path composes, the decoded path
+   returns NOERROR with exactly the same records - every segment's records stamped with that segment's
+   remaining seconds, in chain order - an empty authority section and the same AD verdict (all segments'
+   AD, cleared for CD).  For every name type, folding, store, qtype other than CNAME / DS (the call-site
+   guard: such questions are chase-safe and never reach the composer), CD.  Premise: no alias record of
+   the chain points, in exact spelling, at a name already asked at or before its segment; the walk itself
+   guarantees that (under folding) for the alias each segment continues with, not for the other alias
+   records of a section (ex_chase_back_alias_differs shows the two MODELS differ there).
+   Records are (type, alias target, opaque rest, TTL): CNAME chains only - DNAME synthesis, RDATA
+   re-encoding and name compression are outside this model (compared by the two-server driver). *)
+Theorem wire_chase_eq_msg :
+  forall (name : Type) (fold : name -> name) (name_eqb : name -> name -> bool),
+  (forall a b : name, name_eqb a b = true <-> a = b) ->
+  forall (lookup : name -> option (centry name)) (qtype : N) (cd : bool) (ns_dup : rrec name -> rrec name -> bool),
+  (qtype =? TypeCNAME) = false -> (qtype =? 43) = false ->
+  forall (q : name) (alias : centry name) (ans : list (rrec name)) (ad : bool),
+  wire_chase name fold name_eqb lookup qtype cd q alias = Some (ans, ad) ->
+  (forall segs, collect name fold name_eqb lookup qtype 10 q q alias nil = Some segs -> acyclic name segs) ->
+  forall f : nat, (10 <= f)%nat ->
+  msg_hit name fold name_eqb lookup qtype cd ns_dup f 0 q alias = MReply name 0 ans nil ad.
+Proof. exact wire_chase_eq_msg_lemma. Qed.
+Print Assumptions wire_chase_eq_msg.
 
